@@ -365,6 +365,10 @@ func runCanon(cfg *common.Config, rec *common.Recorder, idx uint64, rng *common.
 			rec.Violate("canonicalize-error", "Canonicalize failed on a capability-free valid struct: "+cerr.Error(), idx, "", input)
 			return
 		}
+		if m := heldCanonCheck(got); m != "" {
+			rec.Violate("canonical-result-changed-by-later-call", m, idx, "", input)
+			return
+		}
 		if !bytes.Equal(got, want) {
 			input["got"], input["want"] = common.Hex(got), common.Hex(want)
 			// classify: is the output at least a valid encoding of the value?
@@ -400,6 +404,31 @@ func runCanon(cfg *common.Config, rec *common.Recorder, idx uint64, rng *common.
 	if rng.Chance(1, 3) {
 		canonElemViews(rec, idx, rng)
 	}
+}
+
+// heldCanon keeps the last few results of Canonicalize together with a private
+// snapshot taken when they were returned: the caller owns a result; a later
+// call (here: later cases of the same process) must not change it.
+var heldCanon []struct{ res, snap []byte }
+
+func heldCanonCheck(latest []byte) string {
+	msg := ""
+	for i, h := range heldCanon {
+		if !bytes.Equal(h.res, h.snap) {
+			msg = fmt.Sprintf("the result of an earlier Canonicalize call (%d calls ago, %d bytes) changed after later calls: was %s, is now %s", len(heldCanon)-i, len(h.snap), common.Hex(h.snap), common.Hex(h.res))
+			break
+		}
+	}
+	if msg != "" {
+		heldCanon = nil
+	}
+	if len(latest) > 0 {
+		if len(heldCanon) >= 6 {
+			heldCanon = heldCanon[1:]
+		}
+		heldCanon = append(heldCanon, struct{ res, snap []byte }{latest, append([]byte(nil), latest...)})
+	}
+	return msg
 }
 
 // canonElemViews: "any capability-free struct" includes the struct view of a
@@ -567,4 +596,72 @@ func equalCaps(rec *common.Recorder, idx uint64, rng *common.RNG) {
 		}
 		rec.Count("cap_table_comparisons", 1)
 	}
+	equalPromisedCaps(rec, idx, rng)
+}
+
+// equalPromisedCaps: identity of capabilities behind promises.  A promised
+// client that has been fulfilled is fully resolved: it is the same capability
+// as its target from the first comparison on (no call, Resolve, AddRef or
+// State in between), in both argument orders, in one message or two, and it
+// stays so; before the resolution, and when fulfilled with another client, it
+// is a different capability.
+func equalPromisedCaps(rec *common.Recorder, idx uint64, rng *common.RNG) {
+	target := capnp.ErrorClient(errors.New("target"))
+	other := capnp.ErrorClient(errors.New("other"))
+	pa, cpa := capnp.NewPromisedClient(&countingHook{})
+	pb, cpb := capnp.NewPromisedClient(&countingHook{})
+	pc, cpc := capnp.NewPromisedClient(&countingHook{}) // fulfilled with pa (a resolved promise)
+	two := rng.Chance(1, 2)
+	mk := func(tab ...*capnp.Client) capnp.Struct {
+		msg, seg, _ := capnp.NewMessage(capnp.SingleSegment(nil))
+		st, _ := capnp.NewRootStruct(seg, capnp.ObjectSize{PointerCount: uint16(len(tab))})
+		for i, c := range tab {
+			id := msg.AddCap(c)
+			_ = st.SetPtr(uint16(i), capnp.NewInterface(seg, id).ToPtr())
+		}
+		return st
+	}
+	// slots: 0 target, 1 other, 2 pa, 3 pb, 4 pc
+	sa := mk(target, other, pa, pb, pc)
+	sb := sa
+	if two {
+		sb = mk(target.AddRef(), other.AddRef(), pa.AddRef(), pb.AddRef(), pc.AddRef())
+	}
+	cmp := func(i, j int, want bool, name string) bool {
+		x, _ := sa.Ptr(uint16(i))
+		y, _ := sb.Ptr(uint16(j))
+		for round := 1; round <= 2; round++ {
+			var got, rev bool
+			var err error
+			p := common.Guard(func() {
+				got, err = capnp.Equal(x, y)
+				rev, _ = capnp.Equal(y, x)
+			})
+			if p != nil {
+				rec.Violate("panic/"+common.TopLibFrame(p.Stack)+"/equal-caps", "panic comparing capability pointers: "+p.Value, idx, p.Stack, name)
+				return false
+			}
+			if err != nil || got != want || rev != want {
+				rec.Violate("wrong-answer/cap-cap/"+name, fmt.Sprintf("Equal on capability pointers (%s, comparison #%d, two messages: %v) = %v/%v (err %v), want %v", name, round, two, got, rev, err, want), idx, "", name)
+				return false
+			}
+			rec.Count("cap_promise_comparisons", 1)
+		}
+		return true
+	}
+	if rng.Chance(1, 2) {
+		// also look before the resolution
+		if !cmp(2, 0, false, "unresolved-promise-vs-target") || !cmp(2, 3, false, "two-unresolved-promises") {
+			return
+		}
+	}
+	cpa.Fulfill(target)
+	cpb.Fulfill(other)
+	cpc.Fulfill(pa)
+	_ = cmp(2, 0, true, "fulfilled-promise-vs-target") &&
+		cmp(3, 0, false, "promise-fulfilled-with-another-client") &&
+		cmp(3, 1, true, "fulfilled-promise-vs-target") &&
+		cmp(2, 3, false, "two-promises-different-targets") &&
+		cmp(4, 0, true, "promise-fulfilled-with-resolved-promise") &&
+		cmp(4, 2, true, "promise-fulfilled-with-resolved-promise")
 }
